@@ -7,6 +7,7 @@ import (
 	"fmt"
 	"math"
 	"os"
+	"regexp"
 	"sort"
 	"strings"
 
@@ -18,6 +19,8 @@ import (
 // form. Errors are part of the dump (as "ERR"), never their text, so a reworded message is
 // not a difference while "value became error" is.
 // ---------------------------------------------------------------------------------------
+
+var vfAddrRE = regexp.MustCompile(`address=0x[0-9A-Fa-f]+`)
 
 type vfAttr struct {
 	Name  string
@@ -50,7 +53,9 @@ func (o *vfObject) Content() string {
 	var sb strings.Builder
 	fmt.Fprintf(&sb, "%s", o.Kind)
 	if o.Kind == "dataset" {
-		fmt.Fprintf(&sb, " info=%q shape=%s read=%s strings=%s compound=%s", o.Info, o.Shape, o.Read, o.Strings, o.Compound)
+		// file addresses are layout, not content
+		info := vfAddrRE.ReplaceAllString(o.Info, "address=*")
+		fmt.Fprintf(&sb, " info=%q shape=%s read=%s strings=%s compound=%s", info, o.Shape, o.Read, o.Strings, o.Compound)
 	}
 	if o.Kind == "group" {
 		fmt.Fprintf(&sb, " children=%q", o.Children)
